@@ -353,6 +353,12 @@ func (c15) Eval(c *Chooser, env *Env) *Outcome {
 			content = disk.Files[rp]
 		}
 		w.Stdin = string(content)
+		if c.Weighted("fault.statstdinname", 1, 4) {
+			// every stat of the named file fails (EIO): it cannot be said NOT to exist, so the content
+			// still belongs to the repository the name lies in and that repository's configuration applies
+			w.Faults = append(w.Faults, kern.Fault{Kind: kern.FStatErr, Path: lintFiles[0]})
+			o.probe("stdin_filename_stat_fails", 1)
+		}
 	}
 	if mode == 5 {
 		kind := []string{kern.FReadEIO, kern.FReadEACCES, kern.FReadEISDIR}[c.Int("fault.cfgkind", 3)]
